@@ -526,8 +526,10 @@ func (e *Exec) evalValue(fr *Frame, in ssa.Instruction, val ssa.Value) (Value, *
 		e.objN++
 		return &MapV{M: &MapObj{ID: e.objN, Frozen: e.w.initializing}}, nil
 	case *ssa.MakeSlice:
-		lt := tb.Resize(e.get(fr, x.Len).(*Term), 64, true)
-		ct := tb.Resize(e.get(fr, x.Cap).(*Term), 64, true)
+		_, lsg, _ := typeWidth(x.Len.Type())
+		_, csg, _ := typeWidth(x.Cap.Type())
+		lt := tb.Resize(e.get(fr, x.Len).(*Term), 64, lsg)
+		ct := tb.Resize(e.get(fr, x.Cap).(*Term), 64, csg)
 		ok := tb.And(tb.Sle(tb.Const(64, 0), lt), tb.And(tb.Sle(lt, ct), tb.Sle(ct, tb.Const(64, 1<<24))))
 		if !e.branch(ok) {
 			return nil, e.goPanic(fr, in, "makeslice: len out of range")
